@@ -225,8 +225,12 @@ def judge (m : Mon) (op ans : List String) (pre post : Obs) : Mon × String :=
     else base m ("BAD flatten-refused representable layout refused: " ++ e)
   | "reloc" :: _, ["ok", red] =>
     match parseHex? (red.drop 4).toString with
-    | some r => if relocGood pre.cs post.cs r then base { m with flat := false } "good"
-                else base m s!"BAD reloc-size estimate {toHex pre.cs} final {toHex post.cs} reduction {toHex r}"
+    | some r =>
+      if !relocGood pre.cs post.cs r then base m s!"BAD reloc-size estimate {toHex pre.cs} final {toHex post.cs} reduction {toHex r}"
+      -- a flattened table stays a layout: code_size() still covers every section (a destination of code_size() bytes is accepted)
+      else if m.flat && !(decide (imageEnd post.secs ≤ post.cs) && fitsB post.cs post.secs) then
+        base m s!"BAD reloc-layout after relocation code_size()={toHex post.cs} is smaller than a section end {toHex (imageEnd post.secs)}"
+      else base { m with flat := false } "good"
     | none => (m, "bad-op")
   | "reloc" :: _, "err" :: _ =>
     if decide (post.cs ≤ pre.cs) then base { m with flat := false } "good" else base m "BAD reloc-size code size grew in a failed relocation"
